@@ -403,6 +403,34 @@ def command_per_attachment_case(ck, rng, stats):
     sb.cleanup()
 
 
+def path_macro_case(ck, rng, stats):
+    """${path} in the arguments of an exec action is the path of the message at hand - for every message of the run, in every maildir of the block"""
+    sb = mdrun.Sandbox()
+    src = sb.maildir('src'); src2 = sb.maildir('src2')
+    helper = common.rec_helper()
+    hout = os.path.join(sb.root, 'helper-out'); os.makedirs(hout)
+    paths = []
+    for md, sub, n in [(src, 'new', 2), (src, 'cur', 1), (src2, 'new', rng.choice([1, 2]))]:
+        for i in range(n):
+            name = sb.add(md, sub, b'To: a\n\nP %s %s %d\n' % (os.path.basename(md).encode(), sub.encode(), i))
+            paths.append(os.path.join(md, sub, name).encode())
+    args = rng.choice([[b'${path}'], [b'file=${path};*', b'const'], [b'a b', b'${path}', b'${path}.bak']])
+    conf = sb.write_conf(b'maildir { "%s" "%s" } {\n\tmatch all exec { "%s" %s }\n}\n' % (src.encode(), src2.encode(), helper.encode(), b' '.join(b'"%s"' % a for a in args)))
+    rc, out, err = sb.run([], conf=conf, env={'VERIF_HELPER_OUT': hout, 'VERIF_HELPER_EXIT': '0'})
+    stats['runs'] += 1; stats['path_macro'] = stats.get('path_macro', 0) + 1
+    calls = common.helper_calls(hout)
+    want = sorted([a.replace(b'${path}', p) for a in args] for p in paths)
+    got = sorted(c['argv'][1:] for c in calls)
+    if got != want or rc != 0:
+        stats['viol'] += 1
+        ck.violation('%d messages in two maildirs, exec arguments %r: every command gets the path of its own message; received %r (exit %d)'
+                     % (len(paths), args, [[x[-40:] for x in g] for g in got][:4], rc),
+                     {'config': open(conf, 'rb').read().decode(errors='replace'), 'exit': rc, 'stderr': err[-300:].decode(errors='replace')})
+    else:
+        stats['nontrivial'] += 1
+    sb.cleanup()
+
+
 def environment_case(ck, rng, stats):
     """The process environment of the children is the one mdsort was started with - whatever mdsort did to its own in between
     (date conditions on a zone abbreviation set TZ for a moment) - and so is the working directory."""
@@ -491,6 +519,7 @@ def run(ck):
             selective_attachment_case(ck, ck.rng, stats)
             environment_case(ck, ck.rng, stats)
             command_per_attachment_case(ck, ck.rng, stats)
+            path_macro_case(ck, ck.rng, stats)
         if len(ck.violations) > 6:
             break
     ck.coverage.update({
@@ -500,7 +529,7 @@ def run(ck):
                 'placed after nothing / label / add-header / flag / move and before nothing / move / label, helper exit 0 / 3 / 127 / SIGKILL, in maildir and stdin '
                 '(a third of the moves / flags before the exec across file systems); rules with 2-4 exec actions of mixed stdin options (and a command condition): every child gets what its own action asks for; attachment blocks whose rule selects some of 2-6 parts (exec stdin / stdin body, a quarter with a failing command followed by a move); '
                 'mode, over plain, base64, quoted-printable and multipart/alternative bodies; command conditions with exit 0/1/7/127/SIGTERM; attachment blocks over '
-                'generated MIME trees; command conditions evaluated per attachment (plain, negated, inside a block) with identical arguments: one run per part; runs over 1-4 messages with date conditions on zone abbreviations started with TZ unset / empty / set: environment and working directory of every child equal those mdsort itself was started with. non-trivial = the command ran exactly once (or the parts were compared); counted per run',
+                'generated MIME trees; command conditions evaluated per attachment (plain, negated, inside a block) with identical arguments: one run per part; ${path} arguments over 4-5 messages in two maildirs; runs over 1-4 messages with date conditions on zone abbreviations started with TZ unset / empty / set: environment and working directory of every child equal those mdsort itself was started with. non-trivial = the command ran exactly once (or the parts were compared); counted per run',
         'samples': samples,
         'traces_validated_against_impl': stats['runs'],
     })
